@@ -55,6 +55,7 @@ package rollout
 //@ track github.com/openkruise/rollouts/pkg/trafficrouting.(*Manager).RestoreGateway as restoreGateway
 //@ track github.com/openkruise/rollouts/pkg/trafficrouting.(*Manager).RemoveCanaryService as removeCanarySvc
 //@ track runBatchRelease as runBR
+//@ track github.com/openkruise/rollouts/api/v1beta1.IsRealPartition as realPart
 //@ track removeBatchRelease as removeBR
 //@ track finalizingBatchRelease as finalizeBR
 
@@ -125,3 +126,6 @@ package rollout
 //@ ensures jump_does_nothing_else: jumped() ==> #upgrade == 0 && #doTR == 0 && #paused == 0 && result == nil
 //@ ensures {C03} stable_pinned_before_first_upgrade: #upgrade > 0 && st0(c) == S_Init() && idx0(c) == 1 && old(stepHasTraffic(c)) && !old(c.Rollout.Spec.Strategy.Canary.DisableGenerateCanaryService) ==> #patchStable == 1 && !#patchStable.ret0 && #patchStable.ret1 == nil
 //@ ensures {C04} stable_unpinned_before_full_replacement: #upgrade > 0 && st0(c) == S_Init() && old(stepHasTraffic(c)) && #restoreStable > 0 ==> !#restoreStable.ret0 && #restoreStable.ret1 == nil
+// the batch that BatchRelease will roll is computed with round-up (control.CalculateBatchReplicas); a step whose rounded-up
+// replica count covers the whole workload replaces every stable pod, so the stable Service must be un-pinned first
+//@ ensures {C04} full_replacement_unpins_first: #upgrade > 0 && st0(c) == S_Init() && old(stepHasTraffic(c)) && old(scaled(steps(c)[idx0(c) - 1].Replicas.Type, steps(c)[idx0(c) - 1].Replicas.IntVal, steps(c)[idx0(c) - 1].Replicas.StrVal, c.Workload.Replicas, true)) >= old(c.Workload.Replicas) && old(scaledOk(steps(c)[idx0(c) - 1].Replicas.Type, steps(c)[idx0(c) - 1].Replicas.StrVal)) && #realPart >= 1 && #realPart.ret0 ==> #restoreStable == 1 && !#restoreStable.ret0 && #restoreStable.ret1 == nil
